@@ -93,7 +93,7 @@ fn check<S: Sim>(prop: &str, tier: Tier, args: &[String]) -> i32 {
         runner::profile_name(),
         workers
     );
-    let res = runner::run_check::<S>(prop, tier, seed, workers, limit, false);
+    let res = runner::run_check::<S>(prop, tier, seed, workers, limit, false, args.iter().any(|a| a == "--spread"));
     let rep = runner::report::<S>(prop, seed, &res);
     // vacuity: required probes must have fired
     let mut vacuous = Vec::new();
@@ -156,7 +156,8 @@ fn main() {
             let samples: u64 = args[8].parse().unwrap();
             let cell = args[9].as_str();
             let dump = args[10] == "dump";
-            with_sim!(sim, S, { runner::worker_main::<S>(prop, tier, seed, start, end, samples, cell, dump) });
+            let stride: u64 = args[11].parse().unwrap();
+            with_sim!(sim, S, { runner::worker_main::<S>(prop, tier, seed, start, end, samples, cell, dump, stride) });
         }
         "exec" => {
             let sim = args[2].as_str();
@@ -185,7 +186,7 @@ fn main() {
             let workers: usize = opt(&args, "--workers").and_then(|s| s.parse().ok()).unwrap_or(16);
             let limit: Option<u64> = opt(&args, "--runs").and_then(|s| s.parse().ok());
             with_sim!(sim_of(prop), S, {
-                let res = runner::run_check::<S>(prop, tier, seed, workers, limit, true);
+                let res = runner::run_check::<S>(prop, tier, seed, workers, limit, true, args.iter().any(|a| a == "--spread"));
                 for (idx, h, c) in &res.dump {
                     println!("{} {:016x} {}", idx, h, c);
                 }
